@@ -2,12 +2,14 @@
 #include "ops.h"
 const char *prop_id = "C09";
 
-typedef struct { int rowoff, wordoff, trailw, trailr; } plc;
+typedef struct { int rowoff, wordoff, trailw, trailr, nest; } plc;
 static plc PL[80]; static int nPL;
 static void placements(void) {
   nPL = 0;
   /* trailw = -1: the parent extends beyond the view only inside the view's last word */
   PL[nPL++] = (plc){0, 0, -1, 0}; PL[nPL++] = (plc){1, 1, -1, 2};
+  /* nest = 1: view of a view whose intermediate view has the same column range */
+  PL[nPL++] = (plc){0, 0, -1, 0, 1}; PL[nPL++] = (plc){1, 1, 1, 2, 1}; if (vx_tier) { PL[nPL++] = (plc){3, 0, 2, 0, 1}; PL[nPL++] = (plc){0, 2, -1, 2, 1}; }
   if (vx_tier) { for (int a = 0; a < 3; a++) for (int b = 0; b < 3; b++) for (int c = 0; c < 3; c++) for (int d = 0; d < 2; d++) PL[nPL++] = (plc){a == 2 ? 3 : a, b, c, d * 2}; }
   else { static const plc Q[] = {{0, 0, 1, 0}, {1, 1, 1, 2}, {3, 2, 0, 0}, {1, 1, 0, 2}, {0, 1, 2, 0}, {3, 0, 2, 2}, {0, 2, 1, 2}, {1, 0, 0, 0}, {0, 1, 0, 0}, {3, 1, 1, 0}, {1, 2, 2, 2}, {0, 0, 0, 2}, {3, 1, 2, 2}, {1, 0, 1, 0}, {0, 2, 0, 0}, {3, 0, 1, 2}}; for (int i = 0; i < 16; i++) PL[nPL++] = Q[i]; }
 }
@@ -31,8 +33,9 @@ static void run_case(const vop *o, int si, int mask, int pi, int fill, int data,
   vwin w[3]; mzd_t *m[3] = {0, 0, 0}, *res = NULL; char msg[256];
   for (int k = 0; k < o->nmat; k++) {
     plc p = PL[(pi + k * 3) % nPL];
+    vw_nest = p.nest;
     w[k] = vw_make(content[k], (mask >> k) & 1, p.rowoff, p.wordoff, p.trailw, p.trailr, (fill + k) % 3 == 0 && fill ? 2 : fill);
-    vw_snapshot(&w[k]); m[k] = w[k].view;
+    vw_nest = 0; vw_snapshot(&w[k]); m[k] = w[k].view;
   }
   uint64_t sc = o->run(m, s, &res);
   if (sc != bl->scalar) vx_fail(sig, "scalar-result", "returned value differs from the call on standalone copies (%llx vs %llx)", (unsigned long long)sc, (unsigned long long)bl->scalar);
